@@ -228,13 +228,23 @@ var nestedQueries = []string{
 	"SELECT n.s AS s, n.o AS o FROM %s n WHERE len(n.o) = 2",
 	"SELECT n.o->y AS y, n.l AS l FROM %s n WHERE n.o->y IS NOT NULL AND n.l IS NOT NULL",
 	"SELECT n.s AS s FROM %s n WHERE COALESCE(n.o->y, n.s) = 'x' OR len(n.s) = 2",
+	// from here on (nestedTwoLen): two type-function overloads of len, over a list column and an object column that are both
+	// nullable (genNested adds lines without the keys). The conjuncts of the first are pushed down as two predicates, one after
+	// the other on the same plugin connection; the second is one predicate with both calls.
+	"SELECT n.s AS s, n.l AS l, n.o AS o FROM %s n WHERE len(n.l) > 1 AND len(n.o) = 2",
+	"SELECT n.s AS s, n.l AS l FROM %s n WHERE len(n.o) = 2 OR len(n.l) = 3",
 }
+
+const nestedTwoLen = 7 // index of the first query with two len overloads over nullable columns
 
 func genNested(t *rapid.T) nestedCase {
 	ls := []string{"", `"l":null`, `"l":[]`, `"l":[1.5]`, `"l":[1.5,2]`, `"l":[0,-1,3.25]`, `"l":[2,2,2,2,2,7]`}
 	os := []string{"", `"o":null`, `"o":{"x":1,"y":"a"}`, `"o":{"x":2.5,"y":null}`, `"o":{"x":null,"y":"x"}`, `"o":{"x":0.5,"y":"xy"}`}
 	ss := []string{"", `"s":null`, `"s":"x"`, `"s":"y"`, `"s":"xy"`}
-	c := nestedCase{Lines: []string{`{"l":[1.5,2],"o":{"x":1,"y":"a"},"s":"x"}`}, Query: rapid.IntRange(0, len(nestedQueries)-1).Draw(t, "query")}
+	c := nestedCase{Lines: []string{`{"l":[1.5,2],"o":{"x":1,"y":"a"},"s":"x"}`}, Query: rapid.IntRange(0, nestedTwoLen-1).Draw(t, "query")}
+	if rapid.IntRange(0, 3).Draw(t, "twolen") == 0 {
+		c.Query = rapid.IntRange(nestedTwoLen, len(nestedQueries)-1).Draw(t, "twolenquery")
+	}
 	n := rapid.IntRange(0, 6).Draw(t, "rows")
 	for i := 0; i < n; i++ {
 		var parts []string
@@ -244,6 +254,10 @@ func genNested(t *rapid.T) nestedCase {
 			}
 		}
 		c.Lines = append(c.Lines, "{"+strings.Join(parts, ",")+"}")
+	}
+	if c.Query >= nestedTwoLen {
+		// l and o are NULL | List and NULL | Object; the first of these lines is kept by len(n.l) = 3 only
+		c.Lines = append(c.Lines, `{"l":[0,-1,3.25],"s":"y"}`, `{"o":null,"s":"xy"}`)
 	}
 	return c
 }
@@ -269,6 +283,9 @@ func nestedProp(r *ev.Rec) func(nestedCase) ev.Outcome {
 			return ev.Outcome{Discard: true, Classes: []string{"timeout"}}
 		}
 		o := ev.Outcome{NonTrivial: len(c.Lines) >= 2, Classes: []string{fmt.Sprintf("nested_query_%d", c.Query)}}
+		if c.Query >= nestedTwoLen {
+			o.Classes = append(o.Classes, "nested_two_len_overloads_over_nullable_columns")
+		}
 		ctx := fmt.Sprintf("native: %s\n    %s\n  plugin: %s\n    %s\n  table:\n%s", native, rn.Brief(), viaPlugin, rp.Brief(), content)
 		if rp.Crashed() {
 			return ev.Fail("the host process crashes on the plugin query\n  %s", ctx)
